@@ -461,7 +461,8 @@ class kFlowDecomp(pathmodel.AbstractPathModelDAG):
         non_empty_paths = []
         non_empty_weights = []
         for path, weight in zip(solution["paths"], solution["weights"]):
-            if len(path) > 1:
+            # for node-weighted input a single node is a genuine (weighted) path; an empty one has no node at all
+            if len(path) > (0 if self.flow_attr_origin == "node" else 1):
                 non_empty_paths.append(path)
                 non_empty_weights.append(weight)
         return {"paths": non_empty_paths, "weights": non_empty_weights}
